@@ -28,22 +28,55 @@ func (r *Run) iterProtocol(rel string, floor int) {
 			continue
 		}
 		ast.Inspect(file, func(nd ast.Node) bool {
-			lit, ok := nd.(*ast.FuncLit)
-			if !ok || lit.Type.Params == nil || len(lit.Type.Params.List) != 1 || len(lit.Type.Params.List[0].Names) != 1 || lit.Type.Results != nil {
+			// an iterator body: a literal func(yield func(...) bool), or - after "turn the closure
+			// into a named method" - a new declared function without results that takes such a yield
+			var lit *ast.FuncLit
+			var yid *ast.Ident
+			isYieldType := func(id *ast.Ident) bool {
+				o := info.Defs[id]
+				if o == nil {
+					return false
+				}
+				sig, ok := o.Type().Underlying().(*types.Signature)
+				if !ok || sig.Results().Len() != 1 {
+					return false
+				}
+				b, ok := sig.Results().At(0).Type().Underlying().(*types.Basic)
+				return ok && b.Kind() == types.Bool
+			}
+			switch x := nd.(type) {
+			case *ast.FuncLit:
+				if x.Type.Params == nil || len(x.Type.Params.List) != 1 || len(x.Type.Params.List[0].Names) != 1 || x.Type.Results != nil {
+					return true
+				}
+				lit, yid = x, x.Type.Params.List[0].Names[0]
+			case *ast.FuncDecl:
+				fo, _ := info.Defs[x.Name].(*types.Func)
+				if x.Body == nil || x.Type.Results != nil || x.Type.Params == nil || fo == nil || !isNewHelper(r.P, r.P.FuncInfoOf(fo)) {
+					return true
+				}
+				for _, fld := range x.Type.Params.List {
+					for _, nm := range fld.Names {
+						if isYieldType(nm) {
+							if yid != nil {
+								return true // two callbacks: not an iterator body
+							}
+							yid = nm
+						}
+					}
+				}
+				if yid == nil {
+					return true
+				}
+				lit = synthLit(r.P.FuncInfoOf(fo))
+			default:
 				return true
 			}
-			yobj := info.Defs[lit.Type.Params.List[0].Names[0]]
-			if yobj == nil {
+			if !isYieldType(yid) {
 				return true
 			}
-			sig, ok := yobj.Type().Underlying().(*types.Signature)
-			if !ok || sig.Results().Len() != 1 {
-				return true
-			}
-			if b, ok := sig.Results().At(0).Type().Underlying().(*types.Basic); !ok || b.Kind() != types.Bool {
-				return true
-			}
-			where := r.scopeName(r.P.ScopeAt(lit.Pos()))
+			yobj := info.Defs[yid]
+			where := r.scopeName(r.P.ScopeAt(lit.Body.Pos()))
 			isYield := func(e ast.Expr) *ast.CallExpr {
 				c, ok := ast.Unparen(e).(*ast.CallExpr)
 				if ok && prog.IdentObj(info, c.Fun) == yobj {
@@ -94,7 +127,7 @@ func (r *Run) iterProtocol(rel string, floor int) {
 						if x.Init != nil {
 							checkCallsIn(x.Init)
 						}
-						cond := ast.Unparen(x.Cond)
+						cond := normNot(ast.Unparen(x.Cond)) // !(A || yield(x)) is !A && !yield(x)
 						// `if A && !yield(x) { return }`: yield is asked only when A holds, and a false
 						// answer stops production — the last conjunct decides
 						for {
@@ -207,4 +240,37 @@ func init() {
 			Desc: "iterators of " + it.pkg + " honour the range-over-func protocol: every yield is `if !yield(x) { return }` (stop exactly when the consumer says stop) or the final action; none stops when yield returns true (which silently drops every element after the first) and none ignores the answer mid-stream",
 			Run:  func(r *Run) { r.iterProtocol(it.pkg, it.floor) }})
 	}
+}
+
+// normNot pushes negations inward (De Morgan, double negation) so that conditions are compared
+// in one form: !(A || B) -> !A && !B, !(A && B) -> !A || !B, !!A -> A. Only the boolean
+// skeleton is rebuilt; the leaves are the original nodes.
+func normNot(e ast.Expr) ast.Expr {
+	e = ast.Unparen(e)
+	switch x := e.(type) {
+	case *ast.BinaryExpr:
+		if x.Op == token.LAND || x.Op == token.LOR {
+			return &ast.BinaryExpr{X: normNot(x.X), OpPos: x.OpPos, Op: x.Op, Y: normNot(x.Y)}
+		}
+	case *ast.UnaryExpr:
+		if x.Op != token.NOT {
+			return e
+		}
+		in := ast.Unparen(x.X)
+		switch y := in.(type) {
+		case *ast.UnaryExpr:
+			if y.Op == token.NOT {
+				return normNot(y.X)
+			}
+		case *ast.BinaryExpr:
+			neg := func(z ast.Expr) ast.Expr { return normNot(&ast.UnaryExpr{OpPos: x.OpPos, Op: token.NOT, X: z}) }
+			switch y.Op {
+			case token.LOR:
+				return &ast.BinaryExpr{X: neg(y.X), OpPos: y.OpPos, Op: token.LAND, Y: neg(y.Y)}
+			case token.LAND:
+				return &ast.BinaryExpr{X: neg(y.X), OpPos: y.OpPos, Op: token.LOR, Y: neg(y.Y)}
+			}
+		}
+	}
+	return e
 }
